@@ -139,6 +139,11 @@ def poison_strategy():
             lambda t: K("late:nonfinite_coord_valid_F", C(t[0], F=t[3], **{t[1]: t[2]}))),
         st.tuples(mv, small, st.sampled_from(BAD_COORD), okF).map(
             lambda t: K("late:nonfinite_param_valid_F", C(t[0], x=t[1], E=t[2], F=t[3]))),
+        # a valid, fast feed: with the power hook installed and tool-power limits
+        # the move is rejected because of the S the hook derives (3000/20 = 150)
+        st.tuples(st.sampled_from(["move", "move_absolute"]), small,
+                  st.sampled_from([3000.0, 4000.0, 30000.0])).map(
+            lambda t: K("late:hook_makes_S_invalid", C(t[0], x=t[1], F=t[2]))),
         # probe
         st.tuples(probe_mode, small, st.sampled_from(BAD_F)).map(
             lambda t: K("late:probe_bad_F", C("probe", t[0], z=t[1], F=t[2]))),
@@ -214,6 +219,7 @@ def setup_strategy():
         C("set_bounds", "feed-rate", 10, 5000),
         C("set_bounds", "tool-power", 0, 1000),
         C("set_bounds", "tool-power", 10, 1000),
+        C("set_bounds", "tool-power", 0, 100),
         C("set_bounds", "tool-number", 1, 20),
         C("set_bounds", "bed-temperature", 0, 120),
         C("set_bounds", "hotend-temperature", 0, 300),
@@ -221,6 +227,7 @@ def setup_strategy():
         C("tool_on", "cw", 100), C("power_on", "dynamic", 50),
         C("coolant_on", "flood"), C("coolant_on", "mist"),
         C("set_distance_mode", "relative"), C("move", x=1.0, y=2.0, z=3.0),
+        {"op": "install_power_hook"},
     ]), min_size=0, max_size=5)
 
 
@@ -271,7 +278,10 @@ def run_case(case, cl=None):
         apply_call(shadow.g, call)
         ok_calls += 1
     prev_call = None
+    LAST["hook"] = any(c.get("op") == "install_power_hook" for c in case["setup"])
     for i, call in enumerate(case["calls"]):
+        if call.get("op") == "install_power_hook":
+            LAST["hook"] = True
         if call.get("op") == "repeat":
             # the very same call again (an immediate retry of a rejected
             # command must be rejected again, and must still change nothing)
@@ -312,6 +322,12 @@ def run_case(case, cl=None):
             if kind and kind.startswith("late:"):
                 cl.add("late_check_from_non_initial_state")
         where = (f"call #{i} {real!r} raised {type(exc).__name__}: {exc}")
+        LAST["known"] = bool(
+            emitted and not d and real["op"] == "move_absolute"
+            and LAST.get("hook") and "tool-power" in str(exc)
+            and not any(k_.upper() == "S" for k_ in real.get("kw", {}))
+            and all(l.split(b";")[0].strip() in (b"G90", b"G91")
+                    for l in emitted.splitlines() if l.strip()))
         if emitted:
             raise Violation(f"{where} but wrote {emitted!r}")
         if d:
@@ -329,6 +345,19 @@ def run_case(case, cl=None):
     return cl
 
 
+LAST = {}
+KNOWN_ID = "hook-made-rejection-of-bypass-move-writes-mode-switch"
+
+
+def in_known_class(case):
+    """Recorded finding: move_absolute() in relative distance mode runs the move
+    hooks inside its temporary absolute-mode block; when a hook produces an
+    invalid F/S (the caller's own arguments being valid) the call is rejected
+    after G90 was written, and G91 follows.  Class = move_absolute, rejection
+    caused by the hook-derived word, state unchanged, only G90/G91 written."""
+    return bool(LAST.get("known"))
+
+
 def replay(case):
     run_case(case)
 
@@ -337,7 +366,14 @@ def run_shard(ctx):
     n = 350 if ctx.tier == "quick" else 15000
 
     def body(case):
-        cl = run_case(case, set())
+        LAST["known"] = False
+        try:
+            cl = run_case(case, set())
+        except Violation:
+            if in_known_class(case):
+                ctx.excluded(KNOWN_ID)     # recorded finding: keep searching
+                return
+            raise
         ctx.case(case, nontrivial="late_check_from_non_initial_state" in cl,
                  classes=sorted(cl), steps=len(case["calls"]))
 
